@@ -469,6 +469,12 @@ def gen_recipe(r, cfg=None, profile="mixed"):
         H, W, C = r.randint(2, 10), r.randint(2, 10), r.choice([64, 96, 128, 200, 256])
     inputs = [dict(shape=[1, H, W, C], dtype=dtype, q=list(_rand_q(r, dtype)))]
     vals = [dict(shape=[1, H, W, C], dtype=dtype, q=tuple(inputs[0]["q"]), uses=0)]
+    if cfg.get("two_inputs", r.random() < 0.12):
+        # a second network input: same shape (so that binary operators and concatenations can pick it up), own quantisation
+        # half of the time; it may also stay unused, which a valid model is allowed to do
+        q2 = list(_rand_q(r, dtype)) if r.random() < 0.5 else list(inputs[0]["q"])
+        inputs.append(dict(shape=[1, H, W, C], dtype=dtype, q=q2))
+        vals.append(dict(shape=[1, H, W, C], dtype=dtype, q=tuple(q2), uses=0))
     layers = []
 
     def emit(L, shape, q=None, odtype=None, n_out=1):
@@ -505,6 +511,22 @@ def gen_recipe(r, cfg=None, profile="mixed"):
             return r.choice(cands)
         return cands[-1]
 
+    if len(inputs) == 2 and r.random() < 0.75:
+        # join the two inputs first, so that most two-input networks use both
+        jop = r.choice(["ADD", "SUB", "MUL", "CONCATENATION", "MAXIMUM"])
+        if jop == "MAXIMUM" and vals[0]["q"] != vals[1]["q"]:
+            jop = "ADD"
+        if jop == "CONCATENATION" and (vals[0]["q"] == vals[1]["q"] or dtype == "uint8"):
+            ax = r.choice([1, 2, 3])
+            shp = list(vals[0]["shape"])
+            shp[ax] *= 2
+            qj = vals[0]["q"] if vals[0]["q"] == vals[1]["q"] else _rand_q(r, dtype)
+            emit(dict(op="CONCATENATION", axis=ax, q=list(qj), **{"in": [0, 1]}), shp, tuple(qj))
+        else:
+            if jop == "CONCATENATION":
+                jop = "ADD"
+            qj = vals[0]["q"] if jop == "MAXIMUM" else _rand_q(r, dtype)
+            emit(dict(op=jop, act="NONE", q=list(qj), **{"in": [0, 1] if r.random() < 0.5 else [1, 0]}), vals[0]["shape"], tuple(qj))
     n_layers = cfg["depth"]
     tries = 0
     while len(layers) < n_layers and tries < 60:
